@@ -201,6 +201,81 @@ def fn_density(items):
     return {'n': n, 'nt': nt, 'viol': viol, 'samples': samples}
 
 
+# ------------------------------------------------------------------ density_matrix with many active stabilizers
+def _signed_large(kind, N, r, signs):
+    """a library-built N-qubit state (zero / ghz / ghz rotated by one global generator), rank set to r, sign pattern
+    `signs` (bit k flips active row r+k)."""
+    pc = lib.pc
+    st = pc.zero_state(N) if kind == 'zero' else pc.ghz_state(N)
+    if kind == 'ghz-rotated':
+        st.rotate_by(pc.pauli('XYZ' * (N // 3) + 'X' * (N % 3)))
+    gs, ps = np.array(st.gs), np.array(st.ps)
+    for k in range(N - r):
+        if (signs >> k) & 1:
+            ps[r + k] = (ps[r + k] + 2) % 4
+    return gs, ps, r
+
+
+def fn_density_large(items):
+    """item = [kind, N, r, signs]: density_matrix of a state with N-r >= 8 active stabilizers.  The reference group is
+    built by multiplying the active rows with the reference product (Gray-code walk over all 2^(N-r) subsets); the
+    expansion must list exactly these signed strings, each once, with weight 2^-N."""
+    n = nt = 0
+    viol = []
+    for item in items:
+        kind, N, r, signs = item
+        gs0, ps0, r0 = _signed_large(kind, N, r, signs)
+        act_g, act_p = gs0[r0:N].astype(np.int64), ps0[r0:N].astype(np.int64) % 4
+        m = N - r0
+        refset = {}
+        g, p = np.zeros(2 * N, dtype=np.int64), 0
+        refset[g.tobytes()] = 0
+        for k in range(1, 2 ** m):
+            j = (k & -k).bit_length() - 1                  # Gray code: toggle generator j
+            g, p = ref.mul(g, p, act_g[j], act_p[j])
+            g, p = np.asarray(g, dtype=np.int64).reshape(-1), int(p) % 4
+            refset[g.tobytes()] = p
+        if len(refset) != 2 ** m or any(q not in (0, 2) for q in refset.values()):
+            raise Harness('reference group of %s(%d) r=%d malformed' % (kind, N, r0))
+        st = lib.ST(gs0, ps0, r0)
+        before = _raw(st)
+        n += 1
+        nt += 1
+        desc = 'density_matrix of %s_state(%d) with r=%d, sign pattern %s on the active rows' % (kind, N, r0, bin(signs))
+        try:
+            dm = st.density_matrix
+        except Exception as e:
+            viol.append(V('C19/density_matrix-large/raises-%s' % type(e).__name__, item, '%s raised %s: %s' % (desc, type(e).__name__, e)))
+            continue
+        dgs, dps, dcs = np.asarray(dm.gs).astype(np.int64), np.asarray(dm.ps), np.asarray(dm.cs)
+        seen = {}
+        problem = None
+        for k in range(dgs.shape[0]):
+            z = complex(dcs[k]) * ref.IPOW[int(dps[k]) % 4] * 2.0 ** N
+            if abs(abs(z) - 1) > 1e-9:
+                problem = ('weight', 'term %d has weight %r, expected 2^-%d' % (k, abs(complex(dcs[k])), N))
+                break
+            if abs(z.imag) > 1e-9:
+                problem = ('not-hermitian-term', 'term %s has a non-real coefficient' % ref.g_to_str(dgs[k]))
+                break
+            key = dgs[k].tobytes()
+            want = refset.get(key)
+            if want is None:
+                problem = ('not-in-group', 'term %s is not an element of the stabilizer group' % ref.g_to_str(dgs[k]))
+                break
+            if (0 if z.real > 0 else 2) != want:
+                problem = ('wrong-sign', 'term %s has the wrong sign' % ref.g_to_str(dgs[k]))
+                break
+            seen[key] = seen.get(key, 0) + 1
+        if problem is None and (len(seen) != len(refset) or dgs.shape[0] != len(refset)):
+            problem = ('not-every-element-once', '%d terms, %d distinct group elements, group order %d' % (dgs.shape[0], len(seen), len(refset)))
+        if problem is None and before != _raw(st):
+            problem = ('receiver-changed', 'the state was modified')
+        if problem is not None:
+            viol.append(V('C19/density_matrix-large/%s' % problem[0], item, '%s: %s' % (desc, problem[1])))
+    return {'n': n, 'nt': nt, 'viol': viol}
+
+
 # ------------------------------------------------------------------ N=3 supplement
 _N3 = {}
 
@@ -246,7 +321,10 @@ def _fixed_unitary(N):
     """reference unitary of the fixed circuit (gate order = forward order)."""
     if N == 1:
         return ref.U_S @ ref.U_H                      # H then S
-    return ref.embed_1q(ref.U_H, 1, 2) @ ref.embed_1q(ref.U_S, 1, 2) @ ref.u_cnot(0, 1, 2) @ ref.embed_1q(ref.U_H, 0, 2)
+    U = ref.embed_1q(ref.U_H, 1, N) @ ref.embed_1q(ref.U_S, 1, N) @ ref.u_cnot(0, 1, N) @ ref.embed_1q(ref.U_H, 0, N)
+    if N == 3:                                        # ... then CNOT(1,2), H(2)
+        U = ref.embed_1q(ref.U_H, 2, 3) @ ref.u_cnot(1, 2, 3) @ U
+    return U
 
 
 def _mk_circuit(name, N):
@@ -266,6 +344,9 @@ def _mk_circuit(name, N):
             c.take(pc.CNOT(0, 1))
             c.take(pc.S(1))
             c.take(pc.H(1))
+            if N == 3:
+                c.take(pc.CNOT(1, 2))
+                c.take(pc.H(2))
         return c
     raise Harness(name)
 
@@ -291,7 +372,10 @@ def fn_shadow(items):
     samples = []
     for item in items:
         N, idx, name, nsample, prefixA, prefixB, max_extra = item
-        gs0, ps0, r0 = stab.tableaux(N)[idx]
+        if N == 3:                       # idx = [budget, i]: i-th state of the deterministic N=3 set (signed variants included)
+            gs0, ps0, r0 = _n3(idx[0])[idx[1]]
+        else:
+            gs0, ps0, r0 = stab.tableaux(N)[idx]
         cls = _cls(r0, ps0, N)
         rho0 = stab.rho_of(gs0, ps0, r0)
         where = 'shadow/%s' % name
@@ -435,6 +519,12 @@ def legs(tier, for_replay=False):
     # density_matrix
     it = [[1, i] for i in range(48)] + [[2, i] for i in range(34560)]
     out.append(Leg('density_matrix', fn_density, it, chunk=240, src_states=48 + 34560, bound='all tableaux N<=2'))
+    it = [[k, N, r, sg] for (k, N, r) in (('zero', 8, 0), ('ghz', 9, 0), ('ghz-rotated', 9, 0), ('ghz', 10, 1), ('ghz-rotated', 10, 0), ('zero', 11, 2)) for sg in (0, 0b101101011 % (2 ** (N - r)))]
+    if not quick:
+        it += [[k, N, r, sg] for (k, N, r) in (('ghz-rotated', 11, 0), ('ghz-rotated', 12, 1), ('ghz', 12, 0)) for sg in (0, 0b11010110101 % (2 ** (N - r)))]
+    out.append(Leg('density_matrix_large', fn_density_large, it, chunk=1, exhaustive=False, supplementary=True,
+                   bound='density_matrix of zero / GHZ / rotated GHZ states with 8..%d active stabilizers (N up to %d), two sign patterns each: the expansion against the reference group '
+                         'built with the reference product (more than 256 combinations: the binary expansion of the combination index needs more than one byte)' % ((11, 11) if quick else (12, 12))))
     # N=3 supplement
     b3 = 60 if quick else 600
     if not for_replay:
@@ -448,6 +538,9 @@ def legs(tier, for_replay=False):
     out.append(Leg('shadow_fixed', fn_shadow, it, chunk=12, src_states=48 + len(reps[2]),
                    bound='fixed circuit (N=1: H,S; N=2: H0,CNOT01,S1,H1; CliffordCircuit and Circuit classes), nsample 1 and 2, on all 48 tableaux of N=1 and '
                          'one tableau per density matrix of N=2 (91): every measurement coin string'))
+    it = [[3, [b3, i], c, 1, [], [], 0] for i in range(b3 if quick else 300) for c in (('fixed',) if i % 4 else ('fixed', 'fixedC'))]
+    out.append(Leg('shadow_fixed_N3', fn_shadow, it, chunk=4, exhaustive=False, supplementary=True,
+                   bound='fixed circuit H0,CNOT01,S1,H1,CNOT12,H2 on %d N=3 states of every rank (deterministic BFS set, half of them signed): every measurement coin string' % (b3 if quick else 300)))
     stride = 16 if quick else 1
     it = [[2, i, 'fixed', 1, [], [], 0] for i in range(seed % stride, 34560, stride)]
     out.append(Leg('shadow_fixed_all', fn_shadow, it, chunk=60, src_states=len(it), exhaustive=not quick, supplementary=quick,
